@@ -136,7 +136,8 @@ F-C12-1, F-C18-1).
 
 {nseeds} changes (rounds 1–3: two per property; round 4: two more per property with the instruction "no cache or
 memoisation: one arithmetic / sign / index / branch slip on unusual inputs, one ordering / aliasing / in-place /
-two-call interaction") were produced by fresh sub-agents that saw only the property text and a scratch worktree; each
+two-call interaction"; round 5: two more with the instruction "a code path ordinary use does not take: one through a
+non-default argument / option / wrapper class, one triggered by an unusual but legitimate value or shape") were produced by fresh sub-agents that saw only the property text and a scratch worktree; each
 was confirmed by me in another scratch worktree (patch applies, the demonstration exits 1 with the change and 0
 without, 929 tests pass) and is kept as `seeded/<id>/` (`patch.diff`, `demo.py`, `notes.md`, `meta.json` with the
 check's own output).  One change (C11-3) was discarded: its demonstration no longer fails on the repaired tree
@@ -171,6 +172,15 @@ What the misses had in common, and the generator / harness changes they led to (
   exactly 0 (C14-2), seed 0 (C15-2), mirrors in the launch test (C03-3), a paraboloid met travelling towards −z
   (C06-3), image formed inside the last medium (C08-4), dispersive immersion media (C09-3), index variables on an
   immersed mirror (C14-4).
+* *Round 5 (non-default routes, unusual values)*: edits through unscaled optimisation `Variable`s (C01-5), look-ups
+  with the optional wavelength window (C18-5), analyses asked for a non-default pupil distribution — the comparison
+  had taken the samples from the analysis object itself (C09-5) —, one call carrying rays of several field points
+  (C13-6); field points below the axis (C03-6), polarization states with an exactly zero component (C17-6),
+  index-matched cemented surfaces (C08-6), immersed objects (C04-5), a fold mirror behind the stop (C04-6), physical
+  apertures that block rays in the Zernike-OPD and stigmatic-system stages (C10-5, C06-5), catalogue media in the
+  closed-form singlet (C06-6), vignetted axial bundles (C05-5), a tilted flat image surface (C09-6), single-column
+  polynomial tables (C19-6).  C15-5 was missed by seed 0 and reported by an extra seed of the source-drift
+  escalation (§11.10).
 * *Harness robustness*: C10-3 (a fit returning 36 instead of 37 coefficients) crashed the harness (exit 2) instead of
   being reported; the shape is now a checked clause.
 * *Seed dependence*: C09-3/4 were caught for seeds 0–2 and missed for seed 3 of the quick tier (150 cases); this led to
